@@ -15,6 +15,8 @@ CLAIMED = {
          "TLC checks termination without state constraint, AskAtMostOnce, EvalBound, NoLostWaiter, NoEarlyRelease on generated programs incl. cyclic ones; each real drain must release exactly the waiters the specification computes (multiset), work counters of real runs judged by Judge.tla; the tracer bounds events so a livelock yields a finite rejected trace.", "6/C06"),
  "C13": ("model_checking", "TLC model checking (AskOnlyDemandedMissing, NoAskAfterRefusal, UnreadNotRequired) + trace validation of every prompt",
          "TLC checks the prompt discipline on all schedules; each real prompt must be for an unmet input of the specification's tracker with needed_by equal to the registered waiters, never after a refusal; asked inputs judged against the program (the quoted lines really stop at that input).", "6/C13"),
+ "C07": ("exploration", "TLC evaluates TaxSchedule.tla (Rev. Proc. brackets, table-row geometry, midpoint rule; limb arithmetic above 32 bits) on observations of figure_tax()",
+         "figure_tax() is swept (thorough: every whole-dollar income below $100,000 for 5 statuses x 3 years; every row and bracket boundary with one-cent neighbours; seeded incomes up to $1e12) and every observation is judged by TLC against an oracle written from the Revenue Procedures, independent of the program's hand-entered tables.", "6/C07"),
  "C10": ("translation_validation", "forced execution of every line definition along all syntactic paths; TLC runs the solver's resolution protocol (Catalogue.tla over SolverCore) on every reference",
          "Every line definition of every form and allowed instance in the three years is executed along its syntactic paths with mock accessors (branch outcomes forced both ways); each reference found (input, line, form, threshold, enumeration member, helper) is resolved by TLC with the solver's own AddForm/ApplyFinal/LoadSpec operators and must end resolved or in 'unsupported' for a deliberately absent form; attribute/name/key errors on any path are violations.", "6/C10"),
  "C15": ("exploration", "TLC evaluates Balance.tla (balance equations, exclusivity, sign constraints) on every solved explored return",
@@ -24,6 +26,7 @@ CLAIMED = {
 }
 
 NOTES = {
+ "C07": "the oracle's bracket table is my transcription of Rev. Proc. 2020-45/2021-45/2022-38, cross-checked by internal consistency axioms (MFJ = 2 x Single etc.) and by reproducing every row of the three shipped tables; worksheet values compared at +-1 cent; quick tier samples every 13th dollar",
  "C10": "paths are forced, so infeasible paths are included (over-approximation); loops take 0-2 iterations; path enumeration per line is capped (quick 3000, thorough 40000); trusted base: the mock accessors of harness/pathexplore.py, TLC",
  "C15": "explored returns only (seeded); amounts below $10M; the list of lines the forms define as non-negative is a reviewed transcription in Balance.tla",
  "C16": "explored returns only (seeded); pairs compared only when both solve; listing lines exempt from renumbering equality are the Schedule B payer rows",
